@@ -10,7 +10,10 @@ import (
 )
 
 // Rand is a splitmix64 generator: tiny, fast, and its whole state is one integer.
-type Rand struct{ s uint64 }
+type Rand struct {
+	s   uint64
+	cnt map[string]int // per-prefix enumeration counters when used as a ListRefs permutation source (permFor)
+}
 
 func NewRand(seed uint64) *Rand { return &Rand{s: seed} }
 
